@@ -4027,7 +4027,13 @@ class IniFileStore(Store):
         try:
             # configobj conflates automagical list values and quoting
             self._config_obj.list_values = True
-            return self._config_obj._quote(value)
+            quoted = self._config_obj._quote(value)
+            if quoted == value and value != value.strip():
+                # configobj only quotes for the blanks it knows about (space,
+                # tab, CR, LF, VT) but its parser strips every unicode blank
+                # (no-break space, U+3000, ...) from both ends of a value.
+                quoted = self._config_obj._get_single_quote(value) % value
+            return quoted
         finally:
             self._config_obj.list_values = False
 
